@@ -58,7 +58,7 @@ def cipher6(fn, srcfile, lens, full_len, tier, uf, steps, maxn=48, aux_lens=None
     common = dict(harness=H + fn + '.c', defs=['MAXN=%d' % maxn, 'ASZ=%d' % L.asz, 'RSZ=%d' % (2 * maxn + 160)],
                   srcs=BELT_CORE + [BLOCK, B + srcfile] + (['src/crypto/belt/belt_wbl.c'] if 'SDE' in fn else []),
                   stub_files=uf, stubs=[uf[0].split('/')[-1][:-2]], unwind=maxn + 40, timeout=timeout, mem_gb=6, cbmc_extra=FS,
-                  unwind_rules=[(r'^(belt)\w+Step\w*\.\d+$', maxn // 16 + 4)], funcs=[fn] + steps)
+                  unwind_rules=[(r'^(belt)\w+Step\w*\.\d+$', maxn // 16 + 4), (r'^c11_cp\.\d+$', L.asz + 2)], funcs=[fn] + steps)
     obs = [Ob(name='c11_%s_shift' % fn, instances=inst,
               bound='count in %s; dest = src + delta, delta in {-(count+16), -count, -17, -16, -15, -1, 0, 1, 15, 16, 17, count, count+16}%s; key (32 octets) and iv outside both: %d concrete placements, each decided for ALL contents of the arena (data, key, iv)'
                     % (list(lens), (' and EVERY delta in [-(count+16), count+16] for count = %d' % full_len) if q else ' - thorough: EVERY delta in [-(count+16), count+16] for every count', len(inst)),
